@@ -500,6 +500,8 @@ func checkC18(c *Ctx, r *Report) {
 	r.Rule("W-FRESH", "the per-call objects named in the property's anchors are allocated inside the call: generateECBytes calls NewReedSolomonEncoder, EncodeHighLevel builds its six mode encoders, decoders are built by constructors; none is loaded from a package variable", 3)
 	nf := checkSharedStores(c, r, "", 60)
 	checkHintMapsReadOnly(c, r)
+	checkNoSharedTransformers(c, r)
+	checkMatrixCache(c, r) // binarizers and bitmaps made by Crop / Rotate / CreateBinarizer own their buffers (same obligations as under C17)
 	var roots []*ssa.Function
 	roots = append(roots, nf.entryMethods("", "Reader", "Decode")...)
 	roots = append(roots, nf.entryMethods("", "Writer", "Encode")...)
@@ -683,4 +685,73 @@ func checkHintMapsReadOnly(c *Ctx, r *Report) {
 	}
 	r.Check(len(bad) == 0, "W-HINTS", key, "", strings.Join(bad, "; "))
 	r.Extra("W-HINTS functions scanned", len(fns))
+}
+
+// W-EXTSTATE: package-level state holds no stateful object of a dependency
+func checkNoSharedTransformers(c *Ctx, r *Report) {
+	r.Rule("W-EXTSTATE", "no package-level variable of the module can reach, through its type (fields, elements, pointers, map keys and values), a text transformer of golang.org/x/text - *encoding.Decoder, *encoding.Encoder or a transform.Transformer: those objects carry conversion state (the UTF-16 decoder rewrites its byte-order state on every use) and are made per call with NewDecoder() / NewEncoder() from the stateless encoding.Encoding values the tables hold; one obligation per package variable whose type is not basic", 10)
+	isStateful := func(t types.Type) string {
+		if n, ok := t.(*types.Named); ok && n.Obj().Pkg() != nil {
+			q := n.Obj().Pkg().Path() + "." + n.Obj().Name()
+			switch q {
+			case "golang.org/x/text/encoding.Decoder", "golang.org/x/text/encoding.Encoder", "golang.org/x/text/transform.Transformer", "golang.org/x/text/transform.SpanningTransformer":
+				return q
+			}
+		}
+		return ""
+	}
+	var reach func(t types.Type, seen map[types.Type]bool, path string) string
+	reach = func(t types.Type, seen map[types.Type]bool, path string) string {
+		if seen[t] {
+			return ""
+		}
+		seen[t] = true
+		if q := isStateful(t); q != "" {
+			return path + " holds a " + q
+		}
+		switch x := t.(type) {
+		case *types.Named:
+			if x.Obj().Pkg() != nil && !strings.HasPrefix(x.Obj().Pkg().Path(), modPath) {
+				return "" // a dependency's own type: only the listed ones are known to carry state
+			}
+			return reach(x.Underlying(), seen, path)
+		case *types.Pointer:
+			return reach(x.Elem(), seen, path)
+		case *types.Slice:
+			return reach(x.Elem(), seen, path+"[]")
+		case *types.Array:
+			return reach(x.Elem(), seen, path+"[]")
+		case *types.Map:
+			if s := reach(x.Key(), seen, path+"[key]"); s != "" {
+				return s
+			}
+			return reach(x.Elem(), seen, path+"[]")
+		case *types.Struct:
+			for i := 0; i < x.NumFields(); i++ {
+				if s := reach(x.Field(i).Type(), seen, path+"."+x.Field(i).Name()); s != "" {
+					return s
+				}
+			}
+		}
+		return ""
+	}
+	for _, p := range c.PkgList {
+		if !strings.HasPrefix(p.PkgPath, modPath) || strings.HasSuffix(p.PkgPath, "/testutil") {
+			continue
+		}
+		sc := p.Types.Scope()
+		for _, name := range sc.Names() {
+			v, ok := sc.Lookup(name).(*types.Var)
+			if !ok {
+				continue
+			}
+			if _, basic := v.Type().Underlying().(*types.Basic); basic {
+				continue
+			}
+			key := shortObj(v)
+			r.Analysed("package variable " + key)
+			s := reach(v.Type(), map[types.Type]bool{}, key)
+			r.Check(s == "", "W-EXTSTATE", key, c.pos(v.Pos()), s+": one object shared by every reader; concurrent decodes race inside it")
+		}
+	}
 }
